@@ -214,7 +214,8 @@ def _min_error_dual(
     problem.set_objective("max", picos.trace(y_var))
     solution = problem.solve(solver=solver, **kwargs)
 
-    measurements = [problem.get_constraint(k).dual for k in range(n)]
+    # The dual variable of the k-th constraint is the complex conjugate of the k-th measurement operator.
+    measurements = [np.conj(np.array(problem.get_constraint(k).dual)) for k in range(n)]
 
     return solution.value, measurements
 
